@@ -492,7 +492,14 @@ def srepr_short(e, limit=500):
 def _sympy_internal(exc):
     """an exception class defined by sympy itself (e.g. polys' GeneratorsNeeded while sympy evaluates an
     unevaluated tree that even str() cannot print): environment, not a refusal by the library"""
-    return (type(exc).__module__ or "").startswith("sympy")
+    if (type(exc).__module__ or "").startswith("sympy"):
+        return True
+    if isinstance(exc, RecursionError):  # sympy's assumption/evaluation machinery looping on an exotic tree
+        import traceback
+
+        tb = traceback.extract_tb(exc.__traceback__)
+        return bool(tb) and "/sympy/" in tb[-1].filename.replace("\\", "/")
+    return False
 
 
 def _is_sympy_expr(x):
@@ -532,6 +539,10 @@ def _post_from_sympy(mon, call):
         if bad:
             mon.note("from_sympy:deferred-to-dialect")
             mon.ok(name)  # carries a function name no dialect entry exists for: refused at translation
+        elif _evaluated_form_unsupported(e):
+            # e.g. -(theta**2)**(2/3) with real theta: the library's `expr * (-1)` makes sympy evaluate it to Abs(theta)**(4/3)
+            mon.note("from_sympy:evaluation-introduced-unsupported-node")
+            mon.out_of_domain(name)
         else:
             mon.violation("tree-has-unknown-function", f"{srepr_short(e)} -> {t!r}")
         return
@@ -1033,6 +1044,28 @@ def _roundtrip(ctx, e, label):
 
 
 def run_case(ctx):
+    try:
+        _run_case(ctx)
+    except _GeneratorFailed as g:
+        # sympy itself failed while the input expression was being built (RecursionError, polys errors on
+        # exotic unevaluated trees, ...): nothing of the library was exercised; counted, not judged
+        ctx.mon.note(f"generator:sympy-failed:{g}")
+        if ctx.desc is None:
+            ctx.describe(f"{ctx.cls} generation failed inside sympy ({g})", False)
+
+
+class _GeneratorFailed(Exception):
+    pass
+
+
+def _gen(fn, *args, **kwargs):
+    try:
+        return fn(*args, **kwargs)
+    except Exception as ex:
+        raise _GeneratorFailed(type(ex).__name__)
+
+
+def _run_case(ctx):
     import sympy as S
 
     global _SALT
@@ -1048,14 +1081,14 @@ def run_case(ctx):
         shapes = special_shapes()
         label, mk = shapes[ctx.index % len(shapes)]
         lvl = rng.choice([0, 0, 1, 2])
-        a, b, c = (rand_tree(rng, lvl) if lvl else rand_symbol(rng) for _ in range(3))
+        a, b, c = (_gen(rand_tree, rng, lvl) if lvl else rand_symbol(rng) for _ in range(3))
         if lvl == 0 and rng.random() < 0.25:
             b = rand_number(rng, allow_zero=False)
         if getattr(b, "is_number", False) and _magnitude(S, b) > 4:
             b = rand_symbol(rng)
         if getattr(a, "is_number", False) and _magnitude(S, a) > 40:
             a = rand_symbol(rng)
-        e = mk(S, a, b, c)
+        e = _gen(mk, S, a, b, c)
         ctx.describe(f"special {label} {srepr_short(e)}", bool(getattr(e, "free_symbols", None)) and size_of(e) >= 3)
         _roundtrip(ctx, e, label)
         return
@@ -1063,8 +1096,11 @@ def run_case(ctx):
     if cls in ("random", "unevaluated", "numeric"):
         # unevaluated trees mostly stress sympy's own re-evaluation once they get deep: capped at 5
         depth = rng.randint(2, min(maxdepth, 5) if cls == "unevaluated" else maxdepth)
-        e = rand_tree(rng, depth, evaluate=(cls != "unevaluated") or rng.random() < 0.1, symbols=(cls != "numeric"))
-        feats = _features(e) if isinstance(e, S.Basic) else set()
+        e = _gen(rand_tree, rng, depth, evaluate=(cls != "unevaluated") or rng.random() < 0.1, symbols=(cls != "numeric"))
+        try:
+            feats = _features(e) if isinstance(e, S.Basic) else set()
+        except Exception:
+            feats = set()
         nontrivial = size_of(e) >= 6 and bool(feats) and (cls == "numeric" or bool(e.free_symbols))
         ctx.describe(f"{cls} d={depth} {srepr_short(e)}", nontrivial)
         _roundtrip(ctx, e, cls)
@@ -1073,10 +1109,10 @@ def run_case(ctx):
     if cls == "unsupported":
         a, b = rand_symbol(rng), rand_symbol(rng)
         if rng.random() < 0.3:
-            a = rand_tree(rng, 1)
+            a = _gen(rand_tree, rng, 1)
         label, u = unsupported_atoms(rng, S, a, b)
         embed = rng.choice(["alone", "sum", "product", "arg", "power", "deep"])
-        x = rand_tree(rng, 2)
+        x = _gen(rand_tree, rng, 2)
         try:
             if embed == "alone" or not isinstance(u, S.Expr):
                 e = u
@@ -1106,7 +1142,7 @@ def run_case(ctx):
         from orquestra.quantum.circuits.symbolic.translations import translate_tuple
 
         n = rng.choice([0, 1, 2, 3, 5])
-        es = tuple(rand_tree(rng, rng.randint(0, 3)) for _ in range(n))
+        es = tuple(_gen(rand_tree, rng, rng.randint(0, 3)) for _ in range(n))
         ctx.describe(f"tuple {[srepr_short(e, 120) for e in es]!r}"[:600], n >= 2 and any(size_of(e) >= 4 for e in es))
         bad = [b for e in es for b in unsupported_nodes(e)]
         for e in es:
